@@ -17,7 +17,7 @@ type MemReach struct {
 	resolved map[*ssa.UnOp]ssa.Value
 }
 
-type cellState map[*ssa.Alloc]ssa.Instruction // nil entry absent = no store yet; manyStores = several
+type cellState map[ssa.Value]ssa.Instruction // nil entry absent = no store yet; manyStores = several
 
 var manyStores ssa.Instruction = &ssa.Jump{}
 
@@ -25,7 +25,34 @@ var manyStores ssa.Instruction = &ssa.Jump{}
 func NewMemReach(fn *ssa.Function) *MemReach {
 	mr := &MemReach{resolved: map[*ssa.UnOp]ssa.Value{}}
 	// eligible cells
-	cells := map[*ssa.Alloc]bool{}
+	cells := map[ssa.Value]bool{}
+	// captured variables of a closure behave like local cells inside the closure body
+	// (the closure runs synchronously with respect to its own loads and stores)
+	for _, fv := range fn.FreeVars {
+		if fv.Referrers() == nil {
+			continue
+		}
+		ok, hasStore := true, false
+		for _, ref := range *fv.Referrers() {
+			switch r := ref.(type) {
+			case *ssa.Store:
+				if r.Addr != fv {
+					ok = false
+				}
+				hasStore = true
+			case *ssa.UnOp:
+				if r.Op != token.MUL {
+					ok = false
+				}
+			case *ssa.DebugRef:
+			default:
+				ok = false
+			}
+		}
+		if ok && hasStore {
+			cells[fv] = true
+		}
+	}
 	for _, b := range fn.Blocks {
 		for _, in := range b.Instrs {
 			al, ok := in.(*ssa.Alloc)
@@ -102,8 +129,8 @@ func NewMemReach(fn *ssa.Function) *MemReach {
 		}
 		for _, ins := range fn.Blocks[bi].Instrs {
 			if s, ok := ins.(*ssa.Store); ok {
-				if al, ok := s.Addr.(*ssa.Alloc); ok && cells[al] {
-					st[al] = s
+				if cells[s.Addr] {
+					st[s.Addr] = s
 				}
 			}
 		}
@@ -136,15 +163,13 @@ func NewMemReach(fn *ssa.Function) *MemReach {
 		for _, ins := range b.Instrs {
 			switch x := ins.(type) {
 			case *ssa.Store:
-				if al, ok := x.Addr.(*ssa.Alloc); ok && cells[al] {
-					st[al] = x
+				if cells[x.Addr] {
+					st[x.Addr] = x
 				}
 			case *ssa.UnOp:
-				if x.Op == token.MUL {
-					if al, ok := x.X.(*ssa.Alloc); ok && cells[al] {
-						if s, ok := st[al]; ok && s != manyStores {
-							mr.resolved[x] = s.(*ssa.Store).Val
-						}
+				if x.Op == token.MUL && cells[x.X] {
+					if s, ok := st[x.X]; ok && s != manyStores {
+						mr.resolved[x] = s.(*ssa.Store).Val
 					}
 				}
 			}
